@@ -66,17 +66,21 @@ def observe(calc, cfg):
         out.append(f'vacuum drop corresponds to gravity {g!r}, configured {cfg["cGravityConstant"]}')
     # limits: the limited run must stop at the first point of the same run with relaxed limits that violates a configured limit
     for name, s in (('level', pb.Shot(pb.Weapon(U.Inch(0), U.Inch(0)), pb.Ammo(dm, U.FPS(2500)))),
-                    ('down1', pb.Shot(pb.Weapon(U.Inch(0), U.Inch(0)), pb.Ammo(dm, U.FPS(2500)), relative_angle=U.Degree(-1)))):
-        R = 1500.0
+                    ('down1', pb.Shot(pb.Weapon(U.Inch(0), U.Inch(0)), pb.Ammo(dm, U.FPS(2500)), relative_angle=U.Degree(-1))),
+                    # from a station at 12000 ft steeply downward: falls 1700 ft, which is between the default altitude floor (-1410.7 ft above sea
+                    # level, far away here) and the default drop limit (-15000 ft): with default limits nothing may stop it
+                    ('steep_high', pb.Shot(pb.Weapon(U.Inch(0), U.Inch(0)), pb.Ammo(dm, U.FPS(2500)), relative_angle=U.Degree(-80), atmo=pb.Atmo.icao(U.Foot(12000))))):
+        R = 1500.0 if name != 'steep_high' else 300.0
         ftr, _ = _trace(free, s, R)
         exp = None
+        alt0 = s.atmo.altitude >> U.Foot
         for i, r in enumerate(ftr[1:], 1):
             v, y = r.velocity >> U.FPS, r.height >> U.Foot
             if v < cfg['cMinimumVelocity']:
                 exp = (pb.RangeError.MinimumVelocityReached, i)
             elif y < cfg['cMaximumDrop']:
                 exp = (pb.RangeError.MaximumDropReached, i)
-            elif y < cfg['cMinimumAltitude']:
+            elif alt0 + y < cfg['cMinimumAltitude']:
                 exp = (pb.RangeError.MinimumAltitudeReached, i)
             if exp:
                 break
@@ -505,7 +509,44 @@ def unknown(cell):
     return {'v': out[:3], 'n': 9, 'states': 1, 'transitions': 9, 'traces': 9, 'nt': name}
 
 
-PARTS = {'subset': subset, 'defaults': defaults, 'history': history, 'advance': advance, 'names': names, 'unknown': unknown}
+def golden_aliases(cell):
+    """the alias table documents itself - so a slip IN the table (two aliases fused by a missing comma, an alias dropped) is invisible to a check that
+    reads the table from the tree under test. Every alias the table had at the pinned commit must still resolve to the same unit."""
+    import json
+    import os
+    from mc.core import VERIF
+    from py_ballisticcalc.unit import Unit, _parse_unit, _parse_value
+    g = json.load(open(os.path.join(VERIF, 'golden', 'unit_aliases.json'), encoding='utf-8'))['aliases']
+    out = []
+    n = 0
+    for alias, uname in sorted(g.items()):
+        if uname not in Unit.__members__:
+            continue
+        for form in (alias, alias.upper()):
+            if form.lower() != alias.lower():
+                continue
+            n += 1
+            try:
+                r = _parse_unit(form)
+            except Exception as e:   # noqa
+                r = f'raised {type(e).__name__}'
+            if r != Unit[uname] or not isinstance(r, Unit):
+                if len(out) < 4:
+                    out.append({'msg': f'alias {form!r} of {uname} (documented in the alias table of the pinned commit) resolves to {r!r}', 'key': None})
+                break
+        if ' ' not in alias:
+            n += 1
+            try:
+                v = _parse_value(f'2.5{alias}', None)
+                ok = v is not None and v.units == Unit[uname]
+            except Exception as e:   # noqa
+                ok = False
+            if not ok and len(out) < 4:
+                out.append({'msg': f"value string '2.5{alias}' is not read as 2.5 {uname} (alias documented at the pinned commit)", 'key': None})
+    return {'v': out, 'n': n, 'nt': 'golden', 'states': n, 'transitions': n, 'traces': n}
+
+
+PARTS = {'subset': subset, 'defaults': defaults, 'history': history, 'advance': advance, 'names': names, 'unknown': unknown, 'golden_aliases': golden_aliases}
 
 
 def plan(tier):
@@ -518,7 +559,7 @@ def plan(tier):
     # small and large configured steps on fast and slow projectiles (the step must follow the setting over its whole range)
     adv += [[n, ms] for n in ('flat', 'hot', 'tail30', 'slow', 'pellet') for ms in ((0.02, 2.0) if tier == 'quick' else (0.05, 0.02, 0.005, 2.0, 5.0))]
     return [('subset', subs), ('defaults', ['Yard', 'Meter', 'Inch']), ('history', [2 if tier == 'quick' else 3]), ('advance', adv),
-            ('names', nm), ('unknown', UNKNOWN)]
+            ('names', nm), ('unknown', UNKNOWN), ('golden_aliases', [0])]
 
 
 def name_table_static():
